@@ -97,7 +97,7 @@ def run_cfg(shape, cfg, policy, d, variant=0):
     open(side, "w").close()
     def go():
         explib.quiet_ctx()
-        return Experiment(explib.build(shape, side=side, variant=variant)).run(f, quiet=True, processes=cfg["p"], maxchunksperchild=cfg["mc"], maxtasksperchunk=cfg["mt"])
+        return Experiment(explib.build(shape, side=side, variant=variant)).run(f, quiet=True, processes=cfg["p"], maxchunksperchild=cfg["mc"], maxtasksperchunk=cfg["mt"], seed=shape.get("seed", 1))
     if cfg["p"] == 1 and cfg["mc"] == 0:
         out = {"value": go(), "verdict": "ok"}
     else:
@@ -118,7 +118,7 @@ from coba.experiments import Experiment
 if __name__ == '__main__':
     shape, cfg, f, side, variant = json.loads(sys.argv[1])
     explib.quiet_ctx()
-    res = Experiment(explib.build(shape, side=side, variant=variant)).run(f, quiet=True, processes=cfg['p'], maxchunksperchild=cfg['mc'], maxtasksperchunk=cfg['mt'])
+    res = Experiment(explib.build(shape, side=side, variant=variant)).run(f, quiet=True, processes=cfg['p'], maxchunksperchild=cfg['mc'], maxtasksperchunk=cfg['mt'], seed=shape.get('seed', 1))
     print(json.dumps(explib.result_digest(res)))
 """
 
@@ -131,7 +131,7 @@ def run(ctx):
     grid = [dict(p=p, mc=mc, mt=mt) for p in ctx.pick((1, 2), (1, 2, 3)) for mc in (0, 1, 2) for mt in (0, 1, 2)]
     nsched = ctx.pick(3, 25)
     traces = []; meta = []
-    shapes = SHAPES[:ctx.pick(4, 6)]
+    shapes = SHAPES[:ctx.pick(4, 6)] + explib.BUILTIN_SHAPES
     for si, shape in enumerate(shapes):
         for variant in range(ctx.pick(1, 2)):
             ref, run0, verdict = run_cfg(shape, dict(p=1, mc=0, mt=0), None, d, variant)
@@ -162,17 +162,18 @@ def run(ctx):
     # ---- real spawn ----
     script = os.path.join(ctx.scratch, "real_exp.py")
     open(script, "w").write(REAL % os.path.dirname(os.path.dirname(os.path.dirname(os.path.abspath(__file__)))))
-    real = ctx.pick([(0, dict(p=2, mc=1, mt=1)), (2, dict(p=2, mc=0, mt=0))],
+    real = ctx.pick([(0, dict(p=2, mc=1, mt=1)), (2, dict(p=2, mc=0, mt=0)), (len(shapes) - 2, dict(p=2, mc=1, mt=1))],
                     [(si, c) for si in range(len(shapes)) for c in (dict(p=2, mc=1, mt=1), dict(p=2, mc=0, mt=0), dict(p=3, mc=2, mt=2), dict(p=1, mc=1, mt=0))])
     for si, cfg in real:
         shape = shapes[si]
-        ref = explib.result_digest(explib.run_inprocess(explib.build(shape)))
+        ref = explib.result_digest(explib.run_inprocess(explib.build(shape), seed=shape.get("seed", 1)))
         f = os.path.join(d, "real.log"); side = os.path.join(d, "real_side.txt")
         for x in (f, side):
             if os.path.exists(x): os.remove(x)
         open(side, "w").close()
         try:
-            p = subprocess.run([sys.executable, "-W", "ignore", script, json.dumps([shape, cfg, f, side, 0])], capture_output=True, text=True, timeout=900)
+            p = subprocess.run([sys.executable, "-W", "ignore", script, json.dumps([shape, cfg, f, side, 0])], capture_output=True, text=True, timeout=900,
+                               env=dict(os.environ, PYTHONHASHSEED="random"))   # every spawned interpreter draws its own string-hash salt, as in ordinary use
             dig = json.loads(p.stdout.strip().splitlines()[-1])
         except subprocess.TimeoutExpired:
             ctx.violation("real-hang", "real multi-process run did not finish in 900 s", dict(shape=si, cfg=cfg)); continue
